@@ -193,6 +193,16 @@ def malformed_docs():
         docs.append(("malformed:clip", f'<svg {NS} viewBox="0 0 100 100"><rect width="5" height="5" clip-path="{bv}"/></svg>'))
         docs.append(("malformed:fill", f'<svg {NS} viewBox="0 0 100 100"><rect width="5" height="5" fill="url({bv})" transform="scale(2)"/></svg>'))
         docs.append(("malformed:par", f'<svg {NS} viewBox="0 0 100 100"><svg width="10" height="20" viewBox="0 0 5 5" preserveAspectRatio="{bv}"><rect width="5" height="5"/></svg></svg>'))
+    # finite numbers whose PRODUCT overflows / underflows
+    for ov in ("scale(1e200) scale(1e200)", "matrix(1e308 0 0 1e308 0 0) scale(10)", "translate(1e308) translate(1e308)", "scale(1e-200) scale(1e-200)", "rotate(1e308)"):
+        docs.append(("malformed:overflow-gradientTransform", f'<svg {NS} viewBox="0 0 100 100"><defs><linearGradient id="g" gradientTransform="{ov}"><stop offset="0"/></linearGradient></defs><rect width="5" height="5" fill="url(#g)"/></svg>'))
+        docs.append(("malformed:overflow-gradientTransform-xf", f'<svg {NS} viewBox="0 0 100 100"><defs><radialGradient id="g" gradientTransform="{ov}" gradientUnits="userSpaceOnUse" cx="5" cy="5" r="4"><stop offset="0"/></radialGradient></defs><rect width="5" height="5" fill="url(#g)" transform="scale(2)"/></svg>'))
+        docs.append(("malformed:overflow-gradientTransform-us", f'<svg {NS} viewBox="0 0 100 100"><defs><linearGradient id="g" gradientUnits="userSpaceOnUse" x2="10" gradientTransform="{ov}"><stop offset="0" stop-color="red"/><stop offset="1" stop-color="blue"/></linearGradient></defs><rect width="5" height="5" fill="url(#g)"/></svg>'))
+        docs.append(("malformed:overflow-transform", f'<svg {NS} viewBox="0 0 100 100"><g transform="{ov}"><rect width="5" height="5"/></g><rect width="5" height="5" transform="{ov}" stroke="red"/></svg>'))
+        docs.append(("malformed:overflow-use", f'<svg {NS} viewBox="0 0 100 100"><defs><rect id="r" width="5" height="5"/></defs><use xlink:href="#r" transform="{ov}"/></svg>'))
+    for vb in ("0 0 1e308 1e308", "0 0 1e-320 1e-320", "-1e308 -1e308 1e308 1e308"):
+        docs.append(("malformed:overflow-viewBox", f'<svg {NS} viewBox="0 0 100 100"><svg x="1" y="1" width="50" height="50" viewBox="{vb}"><rect width="5" height="5"/></svg></svg>'))
+        docs.append(("malformed:overflow-rootviewBox", f'<svg {NS} viewBox="{vb}"><defs><linearGradient id="g" x1="10%"><stop offset="0"/></linearGradient></defs><rect width="5" height="5" fill="url(#g)" stroke="red"/></svg>'))
     return docs
 
 
@@ -307,6 +317,10 @@ def entity_docs(canary_dir):
         ("external-system-attr", f'<?xml version="1.0"?><!DOCTYPE svg [<!ENTITY x SYSTEM "{sysent}">]><svg {NS} viewBox="0 0 10 10"><rect width="5" height="5"/><desc>&x;</desc></svg>'),
         ("external-dtd", f'<?xml version="1.0"?><!DOCTYPE svg SYSTEM "file://{dtd}"><svg {NS} viewBox="0 0 10 10"><rect width="5" height="5"/><desc>&fromdtd;</desc></svg>'),
         ("parameter-entity", f'<?xml version="1.0"?><!DOCTYPE svg [<!ENTITY % p SYSTEM "file://{dtd}"> %p;]><svg {NS} viewBox="0 0 10 10"><rect width="5" height="5"/></svg>'),
+        # entity references in ELEMENT CONTENT (the parser leaves them unresolved as nodes of their own)
+        ("content-entity", f'<?xml version="1.0"?><!DOCTYPE svg [<!ENTITY txt "hello">]><svg {NS} viewBox="0 0 10 10">&txt;<rect width="5" height="5"/><g opacity=".5">&txt;<rect width="3" height="3"/><circle r="2"/>&txt;</g><defs>&txt;</defs></svg>'),
+        ("content-entity-markup", f'<?xml version="1.0"?><!DOCTYPE svg [<!ENTITY r "<rect xmlns=\'http://www.w3.org/2000/svg\' width=\'5\' height=\'5\'/>">]><svg {NS} viewBox="0 0 10 10"><g>&r;</g><circle r="2"/>&r;</svg>'),
+        ("content-entity-clip", f'<?xml version="1.0"?><!DOCTYPE svg [<!ENTITY txt "x">]><svg {NS} viewBox="0 0 10 10"><defs><clipPath id="c">&txt;<rect width="5" height="5"/></clipPath><linearGradient id="g">&txt;<stop offset="0"/></linearGradient></defs><rect width="8" height="8" clip-path="url(#c)" fill="url(#g)"/></svg>'),
         ("public-dtd", f'<?xml version="1.0"?><!DOCTYPE svg PUBLIC "-//W3C//DTD SVG 1.1//EN" "file://{dtd}"><svg {NS} viewBox="0 0 10 10"><rect width="5" height="5"/></svg>'),
     ]
 
@@ -402,7 +416,7 @@ def run(run):
     run.rule = (
         "E3: all reference graphs with n <= 2 (quick) / 3 (thorough) nodes over kinds " + repr(KINDS) + " with every reference slot in {absent, dangling, itself, each other node} "
         "and nodes placed inside/outside defs; use / group-use / clip-path / gradient-href chains and cycles of length 1-3 (1-5), doubling chains of depth 1-4 (1-6); the same cycles of length 1-3 with one link / every link spelled differently (5 padded-fragment forms for href, 6 padded / quoted forms for url()); "
-        f"{len(malformed_docs())} malformed-value documents (each numeric attribute x " + repr(BADVALS) + "); 7 DOCTYPE/entity documents in a fresh interpreter under an open() monitor. "
+        f"{len(malformed_docs())} malformed-value documents (each numeric attribute x " + repr(BADVALS) + "); 10 DOCTYPE/entity documents (incl. entity references in element content) in a fresh interpreter under an open() monitor. "
         f"Each case: sandboxed fork, {CPU_BUDGET}s CPU-time budget (ITIMER_VIRTUAL), 1 GiB address space. Oracle: verdict in {{returned (must satisfy R4), raised}}; TIMEOUT/MEMORY/CRASH are violations; "
         "no canary file opened, no canary content in output. Non-trivial = document with at least one reference / malformed value / entity."
     )
